@@ -359,6 +359,12 @@ def main():
              "kind_free_text": "MC_Compare, Trace_Compare; harness/props/c19.py"},
             {"name": "tlc-indels", "path": "spec/Indels.tla", "serves_properties": ["C20"],
              "kind_free_text": "MC_Indels, Trace_Indels; harness/props/c20.py"},
+            {"name": "tlc-seeding", "path": "spec/Seeding.tla", "serves_properties": ["C06", "C16"],
+             "kind_free_text": "getInitialAlignment and refine as state machines in exact arithmetic; MC_Seeding, MC_Refine, Trace_Seeding; harness/props/seeding.py"},
+            {"name": "tlc-worker", "path": "spec/Worker.tla", "serves_properties": ["C05", "C07", "C16"],
+             "kind_free_text": "one action per dispatched message; MC_Worker, Trace_Worker (per-task event logs), spec/apalache/Apa_Worker.tla; harness/props/worker.py"},
+            {"name": "tlc-finder", "path": "spec/Finder.tla", "serves_properties": ["C20"],
+             "kind_free_text": "sv/molecule_indels for one joined record; MC_Finder, Trace_Finder; harness/props/c20.py"},
             {"name": "tlc-row", "path": "spec/Row.tla", "serves_properties": ["C03"],
              "kind_free_text": "TLA+ spec (MC_/Export_/Trace_ configs) checked with TLC; harness/props/c03.py"},
         ],
